@@ -452,3 +452,225 @@ pub fn sort_by<T, F: FnMut(&T, &T) -> std::cmp::Ordering>(v: &mut [T], mut f: F)
     pass += 1;
   }
 }
+
+// ---------------------------------------------------------------------------
+// Small inline vector of Copy values (used for the tombstone lists of the commit
+// fold slice): `Vec::push` on a heap vector whose length is symbolic goes through
+// grow / realloc with a symbolic size, which exhausts the SAT back end's memory.
+// Same contract as Vec for push / len / indexing / iteration, capacity 4.
+// ---------------------------------------------------------------------------
+
+pub const SMALL_CAP: usize = 4;
+
+#[derive(Clone, Debug)]
+pub struct SmallSeq<T: Copy + Default> {
+  items: [T; SMALL_CAP],
+  len: usize,
+}
+
+impl<T: Copy + Default> Default for SmallSeq<T> {
+  fn default() -> Self {
+    SmallSeq {
+      items: [T::default(); SMALL_CAP],
+      len: 0,
+    }
+  }
+}
+
+impl<T: Copy + Default> SmallSeq<T> {
+  pub fn new() -> Self {
+    Self::default()
+  }
+
+  pub fn len(&self) -> usize {
+    self.len
+  }
+
+  pub fn is_empty(&self) -> bool {
+    self.len == 0
+  }
+
+  pub fn push(&mut self, v: T) {
+    if self.len >= SMALL_CAP {
+      panic!("VERIF-MODEL: SmallSeq model capacity exceeded");
+    }
+    let mut i = 0;
+    while i < SMALL_CAP {
+      if i == self.len {
+        self.items[i] = v;
+      }
+      i += 1;
+    }
+    self.len += 1;
+  }
+
+  pub fn get(&self, i: usize) -> Option<T> {
+    if i < self.len {
+      Some(self.items[i])
+    } else {
+      None
+    }
+  }
+}
+
+// ---------------------------------------------------------------------------
+// Finite map for the commit-fold slice (C04).  Same contract as the HashMap model
+// above, but every slot access uses a CONSTANT array index selected by comparison
+// (`if i == at`): with symbolic-index writes through `&mut` into the inline array
+// CBMC 6.11 produced a counterexample for the fold harness that does not exist
+// natively (a value pushed through `entry().or_default()` at a symbolic slot was
+// lost); selecting among constant slots avoids symbolic pointer offsets altogether.
+// ---------------------------------------------------------------------------
+
+pub const FOLD_CAP: usize = 4;
+
+pub struct FoldMap<K, V> {
+  items: [Option<(K, V)>; FOLD_CAP],
+  len: usize,
+}
+
+impl<K: Eq, V> FoldMap<K, V> {
+  pub fn new() -> Self {
+    FoldMap {
+      items: [const { None }; FOLD_CAP],
+      len: 0,
+    }
+  }
+
+  pub fn len(&self) -> usize {
+    self.len
+  }
+
+  pub fn is_empty(&self) -> bool {
+    self.len == 0
+  }
+
+  fn position(&self, k: &K) -> Option<usize> {
+    let mut found = None;
+    let mut i = 0;
+    while i < FOLD_CAP {
+      if i < self.len && found.is_none() {
+        if let Some((key, _)) = &self.items[i] {
+          if key == k {
+            found = Some(i);
+          }
+        }
+      }
+      i += 1;
+    }
+    found
+  }
+
+  pub fn contains_key(&self, k: &K) -> bool {
+    self.position(k).is_some()
+  }
+
+  pub fn get(&self, k: &K) -> Option<&V> {
+    let at = self.position(k);
+    let mut i = 0;
+    while i < FOLD_CAP {
+      if Some(i) == at {
+        return self.items[i].as_ref().map(|kv| &kv.1);
+      }
+      i += 1;
+    }
+    None
+  }
+
+  fn slot_mut(&mut self, at: usize) -> &mut V {
+    for (i, s) in self.items.iter_mut().enumerate() {
+      if i == at {
+        match s.as_mut() {
+          Some(kv) => return &mut kv.1,
+          None => panic!("VERIF-MODEL: FoldMap slot below len is empty"),
+        }
+      }
+    }
+    panic!("VERIF-MODEL: FoldMap slot index out of range")
+  }
+
+  fn push(&mut self, k: K, v: V) -> usize {
+    if self.len >= FOLD_CAP {
+      panic!("VERIF-MODEL: FoldMap model capacity exceeded");
+    }
+    let at = self.len;
+    let mut it = Some((k, v));
+    let mut i = 0;
+    while i < FOLD_CAP {
+      if i == at {
+        self.items[i] = it.take();
+      }
+      i += 1;
+    }
+    self.len += 1;
+    at
+  }
+
+  pub fn insert(&mut self, k: K, v: V) -> Option<V> {
+    match self.position(&k) {
+      Some(at) => Some(std::mem::replace(self.slot_mut(at), v)),
+      None => {
+        self.push(k, v);
+        None
+      }
+    }
+  }
+
+  pub fn remove(&mut self, k: &K) -> Option<V> {
+    match self.position(k) {
+      Some(at) => {
+        let mut out = None;
+        let mut i = 0;
+        while i < FOLD_CAP {
+          if i == at {
+            out = self.items[i].take();
+          }
+          i += 1;
+        }
+        // keep the occupied slots contiguous
+        let mut j = 0;
+        while j + 1 < FOLD_CAP {
+          if j >= at && j + 1 < self.len {
+            self.items[j] = self.items[j + 1].take();
+          }
+          j += 1;
+        }
+        self.len -= 1;
+        out.map(|kv| kv.1)
+      }
+      None => None,
+    }
+  }
+
+  pub fn entry(&mut self, k: K) -> FoldEntry<'_, K, V> {
+    let pos = self.position(&k);
+    FoldEntry {
+      map: self,
+      key: Some(k),
+      pos,
+    }
+  }
+}
+
+pub struct FoldEntry<'a, K, V> {
+  map: &'a mut FoldMap<K, V>,
+  key: Option<K>,
+  pos: Option<usize>,
+}
+
+impl<'a, K: Eq, V> FoldEntry<'a, K, V> {
+  pub fn or_insert_with<F: FnOnce() -> V>(self, f: F) -> &'a mut V {
+    let at = match self.pos {
+      Some(i) => i,
+      None => self.map.push(self.key.unwrap(), f()),
+    };
+    self.map.slot_mut(at)
+  }
+
+  pub fn or_default(self) -> &'a mut V
+  where
+    V: Default,
+  {
+    self.or_insert_with(V::default)
+  }
+}
